@@ -77,6 +77,7 @@ PlainW == [si |-> 2, mean |-> FALSE, troot |-> <<>>, tleaf |-> <<>>]
 Cfgs == IF Tier = "quick"
         THEN { MkCfg(g, ni, PlainW) : g \in Grans, ni \in BOOLEAN }
              \cup { MkCfg(g, FALSE, w) : g \in {"functions", "lines"}, w \in WeightCfgs }
+             \cup { MkCfg("addresses", FALSE, [si |-> 2, mean |-> TRUE, troot |-> <<>>, tleaf |-> <<>>]) }   \* callgrind is written at this granularity
         ELSE { MkCfg(g, ni, w) : g \in Grans, ni \in BOOLEAN, w \in WeightCfgs }
 
 GuardProfiles == { << Smp(<<LF, LG, LF>>, <<1, 3>>, <<>>, <<>>), Smp(<<LG, LF, LG, LF>>, <<2, 2>>, <<>>, <<>>) >> }
